@@ -328,3 +328,19 @@ Proof.
   - destruct (round_err (R_sqrt.sqrt (B2R (Prim2B x)))) as (d & h & Hd & Hh & Er).
     exists d, h. repeat split; auto. etransitivity; [exact E|exact Er].
 Qed.
+
+Lemma fsub_rnd x y : ffinite x = true -> ffinite y = true -> Rabs (FR x - FR y) <= bpow radix2 1023 ->
+  ffinite (x - y)%float = true /\ FR (x - y)%float = rnd64 (FR x - FR y).
+Proof.
+  rewrite !ffinite_equiv. unfold FR. rewrite sub_equiv. intros Fx Fy Hb.
+  pose proof (Bminus_correct prec emax ltac:(reflexivity) ltac:(reflexivity) mode_NE (Prim2B x) (Prim2B y) Fx Fy) as H.
+  rewrite Rlt_bool_true in H by (apply round_no_overflow; exact Hb).
+  destruct H as (E & F & _). split; [exact F|exact E].
+Qed.
+
+Lemma fabs_fin x : ffinite x = true -> ffinite (PrimFloat.abs x) = true /\ FR (PrimFloat.abs x) = Rabs (FR x).
+Proof.
+  rewrite !ffinite_equiv. unfold FR. rewrite abs_equiv. intros F. split.
+  - rewrite is_finite_Babs. exact F.
+  - apply B2R_Babs.
+Qed.
